@@ -63,6 +63,7 @@ Definition cmem (c : cid) (l : list cid) : bool := existsb (cid_eqb c) l.
 Definition amem (a : attr) (l : list attr) : bool := existsb (attr_eqb a) l.
 Definition asubset (l1 l2 : list attr) : bool := forallb (fun a => amem a l2) l1.
 Definition nmem (n : nat) (l : list nat) : bool := existsb (Nat.eqb n) l.
+Definition bmem (b : bname) (l : list bname) : bool := existsb (bname_beq b) l.
 
 (* ------------------------------------------------------------------------------------------------ *)
 (* class table *)
@@ -551,7 +552,7 @@ Definition noniter_str_hit (d : devs) (v : value) (t : ty) : bool :=
   d_noniter_str d &&
   match v, t with
   | VScalar SStr, TCls (CB h) (TCls (CB B_str) _ :: _) =>
-      match h with B_t_Sequence | B_t_Iterable | B_t_Collection | B_t_Container => true | _ => false end
+      bmem h [B_t_Sequence; B_t_Iterable; B_t_Collection; B_t_Container]
   | _, _ => false
   end.
 
@@ -583,20 +584,16 @@ Fixpoint inhabitsF (d : devs) (tb : table) (t : ty) (v : value) {struct t} : boo
       end
   | TCls (CU k) _ => user_member d tb v k
   | TCls (CB h) args =>
-      match h with
-      | B_object => true
-      | _ =>
+      if bname_beq h B_object then true else
       match v with
       | VClass k =>
-          match h with
-          | B_type => match args with
-                      | u :: _ => match rep k with Some r => inhabitsF d tb u r | None => false end
-                      | [] => true
-                      end
-          | B_t_Callable => true
-          | _ => false
-          end
-      | VFunc _ _ _ => match h with B_t_Callable => true | _ => false end
+          if bname_beq h B_type then
+            match args with
+            | u :: _ => match rep k with Some r => inhabitsF d tb u r | None => false end
+            | [] => true
+            end
+          else bname_beq h B_t_Callable
+      | VFunc _ _ _ => bname_beq h B_t_Callable
       | VInst _ => false
       | _ =>
           if noniter_str_hit d v t then false
@@ -607,7 +604,6 @@ Fixpoint inhabitsF (d : devs) (tb : table) (t : ty) (v : value) {struct t} : boo
                          end
                | CU _ => false
                end
-      end
       end
   end.
 
@@ -669,8 +665,6 @@ Definition heads : list bname :=
 Definition vclasses : list bname :=
   [B_int; B_float; B_complex; B_bool; B_str; B_bytes; B_bytearray; B_NoneType; B_list; B_tuple; B_set;
    B_frozenset; B_dict; B_type; B_t_Callable].
-
-Definition bmem (b : bname) (l : list bname) : bool := existsb (bname_beq b) l.
 
 Definition head_arity (h : bname) : nat :=
   match h with
@@ -762,8 +756,12 @@ Definition btable_ok (tb : table) : bool :=
   && cset_eqb (bt_class_accept (t_b tb)) [CB B_type; CB B_object; CB B_t_Callable; CB B_t_Hashable]
   && cid_eqb (bt_function_type (t_b tb)) (CB B_t_Callable)
   (* S7: object's MRO is itself *)
-  && opm_eqb (option_map snd (find (fun _ => true) (mro tb (CB B_object)))) (Some [])
-  && Nat.eqb (length (mro tb (CB B_object))) 1.
+  && (match mro tb (CB B_object) with [(CB B_object, [])] => true | _ => false end)
+  (* S8: compat pairs relate builtin classes only, and object is compatible with nothing *)
+  && forallb (fun p => match fst p, snd p with
+                       | CB a, CB _ => negb (bname_beq a B_object)
+                       | _, _ => false
+                       end) (bt_compat (t_b tb)).
 
 Definition table_ok (tb : table) : bool := btable_ok tb && wf_utable tb.
 
